@@ -31,6 +31,8 @@ def project(c, r):
 
 def gen(ctx):
     rng = ctx.rng
+    for a in R.same_text_cases():
+        yield Case("RUN", a, tags=("same-text-programs",))
     for a in R.big_program_cases():
         yield Case("RUN", a, tags=("big-program",))
     for _ in range(40000 if ctx.thorough else 2000):
